@@ -29,8 +29,25 @@ package internal
 // valmem(v): the size KeyData.GetMem accounts for value v (beyond the fixed 24 bytes of the deadline).
 // GetMem walks hashes, lists and sets; its result is treated as a function of the value (assumed contract).
 //@ ufun valmem(v any) int64
+// memok(v): GetMem supports the dynamic type of v (it returns an error for any other type).
+//@ ufun memok(v any) bool
 
 //@ func (*KeyData).GetMem trusted props C19
 //@   ensures result1 == nil ==> result0 == 24 + valmem(k.Value)
+//@   ensures (result1 == nil) <==> memok(k.Value)
 //@   ensures result0 >= 0
 //@   modifies nothing
+
+// ---- the keyspace functions a command handler receives ---------------------------------------------
+// HandlerFuncParams carries bound methods of one server (sugardb.(*SugarDB).getHandlerFuncParams). $srv names that
+// server; a call through one of these fields is checked against the contract of the bound function.
+//@ ghost $srv const *sugardb.SugarDB
+//@ field internal.HandlerFuncParams.KeysExist = sugardb.(*SugarDB).keysExist recv $srv
+//@ field internal.HandlerFuncParams.GetExpiry = sugardb.(*SugarDB).getExpiry recv $srv
+//@ field internal.HandlerFuncParams.GetValues = sugardb.(*SugarDB).getValues recv $srv
+//@ field internal.HandlerFuncParams.SetValues = sugardb.(*SugarDB).setValues recv $srv
+//@ field internal.HandlerFuncParams.SetExpiry = sugardb.(*SugarDB).setExpiry recv $srv
+//@ field internal.HandlerFuncParams.DeleteKey = sugardb.(*SugarDB).getHandlerFuncParams$1 recv $srv
+//@ field internal.HandlerFuncParams.Flush = sugardb.(*SugarDB).Flush recv $srv
+//@ field internal.HandlerFuncParams.SwapDBs = sugardb.(*SugarDB).SwapDBs recv $srv
+//@ field internal.HandlerFuncParams.GetClock = sugardb.(*SugarDB).getClock recv $srv
